@@ -32,7 +32,7 @@ type StressResult struct {
 	Violations []StressViolation `json:"violations"`
 }
 
-func runStress(seed uint64, ms int) *StressResult {
+func runStress(seed uint64, ms int, opts Opts) *StressResult {
 	res := &StressResult{}
 	var mu sync.Mutex
 	viol := func(kind, what, detail string) {
@@ -47,6 +47,8 @@ func runStress(seed uint64, ms int) *StressResult {
 	fm, err := fracbuild.NewFM(dir, func(c *fracmanager.Config) {
 		c.FracSize = 600
 		c.MaintenanceDelay = 3 * time.Millisecond
+		c.Fraction.SkipSortDocs = opts.SkipSortDocs
+		c.Fraction.KeepMetaFile = opts.KeepMetaFile
 	})
 	if err != nil {
 		panic(err)
